@@ -1165,6 +1165,134 @@ fn cmd_c07(seed: u64, n: u64, ops_path: &str, impl_path: &str) -> Result<()> {
 }
 
 /// run the trampoline on one WAT file and describe the outcome (ad-hoc experiments, replays)
+// ------------------------------------------------------------------------------ abi -> Lean (behavioural)
+
+fn probe_module(imports: &[(String, String, Sig)]) -> String {
+    let mut t = String::from("(module\n");
+    for (i, (m, n, s)) in imports.iter().enumerate() {
+        writeln!(t, "  (import \"{}\" \"{}\" (func $f{}{}))", m, n, i, sig_wat(s)).unwrap();
+    }
+    t.push_str("  (memory (export \"memory\") 1)\n)\n");
+    t
+}
+
+fn sig_lean(name: &str, s: &Sig) -> String {
+    format!(
+        "({}, [{}], [{}])",
+        name_lit(name),
+        s.params.iter().map(|p| vt_code(p).to_string()).collect::<Vec<_>>().join(", "),
+        s.results.iter().map(|p| vt_code(p).to_string()).collect::<Vec<_>>().join(", ")
+    )
+}
+
+/// `sfw abi <out.lean> [candidate names...]`: what the real tool accepts, insists on and emits, found by
+/// running it on modules that import the public API (all of it at once; one function at a time with the
+/// public signature and with a perturbed one; candidate low-level names inside the API namespace)
+fn cmd_abi(out: &str, candidates: &[String]) -> Result<()> {
+    let api = load_api()?;
+    let prov = shopify_function_trampoline::PROVIDER_MODULE_NAME;
+    let run = |imports: &[(String, String, Sig)]| -> Result<Vec<(String, String, String, Sig)>> {
+        let wasm = wat::parse_str(&probe_module(imports))?;
+        let outw = trampoline(&wasm)?;
+        wasmparser::validate(&outw).map_err(|e| anyhow!("output does not validate: {}", e))?;
+        Ok(imports_of(&outw)?.0)
+    };
+    // 1. the whole API at once
+    let all: Vec<(String, String, Sig)> = api.iter().map(|a| (API_MODULE.to_string(), a.name.clone(), a.sig.clone())).collect();
+    let out_all = run(&all).map_err(|e| anyhow!("the tool refuses a module importing the whole public API: {:#}", e))?;
+    let mut emits: Vec<(String, Sig)> = Vec::new();
+    let mut left: Vec<String> = Vec::new();
+    for (m, n, k, s) in &out_all {
+        if k != "func" {
+            continue;
+        }
+        let public_name = api.iter().any(|a| &a.name == n);
+        if m == prov && !public_name {
+            if !emits.iter().any(|(en, es)| en == n && es == s) {
+                emits.push((n.clone(), s.clone()));
+            }
+        } else if m == API_MODULE && public_name {
+            left.push(n.clone());
+        }
+    }
+    // 2. one function at a time
+    let mut expected: Vec<(String, Sig)> = Vec::new();
+    let mut adds: Vec<(String, Sig)> = Vec::new();
+    let mut renames: Vec<(String, String)> = Vec::new();
+    for a in &api {
+        let public = run(&[(API_MODULE.to_string(), a.name.clone(), a.sig.clone())]);
+        let mut bad = a.sig.clone();
+        bad.params.push("i32".to_string());
+        let perturbed = run(&[(API_MODULE.to_string(), a.name.clone(), bad)]);
+        if perturbed.is_err() {
+            // the tool insists on a signature for this import: the public one, or one we cannot name
+            match &public {
+                Ok(imps) => {
+                    expected.push((a.name.clone(), a.sig.clone()));
+                    for (m, n, k, s) in imps {
+                        if k == "func" && m == prov && !adds.iter().any(|(an, asg)| an == n && asg == s) {
+                            adds.push((n.clone(), s.clone()));
+                        }
+                    }
+                }
+                Err(_) => expected.push((a.name.clone(), Sig { params: vec!["f32".into()], results: vec!["f32".into()] })),
+            }
+        } else if let Ok(imps) = &public {
+            let fs: Vec<&(String, String, String, Sig)> = imps.iter().filter(|(_, _, k, _)| k == "func").collect();
+            if fs.len() == 1 {
+                renames.push((a.name.clone(), fs[0].1.clone()));
+            } else {
+                renames.push((a.name.clone(), String::new()));
+            }
+        } else {
+            // refused with its public signature although no signature is insisted on
+            expected.push((a.name.clone(), Sig { params: vec!["f32".into()], results: vec!["f32".into()] }));
+        }
+    }
+    // 3. low-level names inside the API namespace the tool tolerates (its own output must be accepted again)
+    let mut cands: Vec<String> = emits.iter().map(|(n, _)| n.clone()).collect();
+    for c in candidates {
+        if !cands.contains(c) {
+            cands.push(c.clone());
+        }
+    }
+    cands.push("memory".to_string());
+    let mut allow: Vec<String> = Vec::new();
+    for c in &cands {
+        if api.iter().any(|a| &a.name == c) || renames.iter().any(|(_, n)| n == c) {
+            continue; // names of the table itself
+        }
+        let sig = emits.iter().find(|(n, _)| n == c).map(|(_, s)| s.clone()).unwrap_or(Sig { params: vec![], results: vec![] });
+        if run(&[(API_MODULE.to_string(), c.clone(), sig)]).is_ok() && !allow.contains(c) {
+            allow.push(c.clone());
+        }
+    }
+    expected.sort_by(|a, b| a.0.cmp(&b.0));
+    emits.sort_by(|a, b| a.0.cmp(&b.0));
+    adds.sort_by(|a, b| a.0.cmp(&b.0));
+    allow.sort();
+    renames.sort();
+    let mut s = String::from("-- REGENERATED by /verif/harness/sfw (`sfw abi`): the real TrampolineCodegen probed with modules importing the\n-- public API (all at once; one function at a time with the public and with a perturbed signature; low-level\n-- names inside the API namespace); value types: 0 i32, 1 i64, 2 f32, 3 f64; do not edit\nimport SfVerif.Gen.Abi\nnamespace SfVerif.Gen\n");
+    let tbl = |name: &str, doc: &str, rows: &Vec<(String, Sig)>| -> String {
+        format!("/-- {} -/\ndef {} : List Sig := [\n  {}\n]\n", doc, name, rows.iter().map(|(n, g)| sig_lean(n, g)).collect::<Vec<_>>().join(",\n  "))
+    };
+    s.push_str(&tbl("trampolineExpectedSigs", "imports the tool refuses with a perturbed signature, with the signature it accepts (f32 -> f32: it refuses the public one)", &expected));
+    s.push_str(&tbl("trampolineAdds", "provider imports the glue of those functions brings in", &adds));
+    s.push_str(&tbl("trampolineEmits", "every provider import in the output for a guest importing the whole API", &emits));
+    writeln!(s, "/-- low-level names tolerated inside the API namespace -/\ndef trampolineAllowList : List (List Nat) := [{}]", allow.iter().map(|a| name_lit(a)).collect::<Vec<_>>().join(", ")).unwrap();
+    writeln!(s, "/-- imports that are only renamed: (public name, name in the output) -/\ndef toolRenames : List (List Nat × List Nat) := [\n  {}\n]", renames.iter().map(|(a, b)| format!("({}, {})", name_lit(a), name_lit(b))).collect::<Vec<_>>().join(",\n  ")).unwrap();
+    writeln!(s, "/-- function imports left in the API namespace after trampolining the whole API -/\ndef toolLeftInApi : List (List Nat) := [{}]", left.iter().map(|a| name_lit(a)).collect::<Vec<_>>().join(", ")).unwrap();
+    s.push_str("end SfVerif.Gen\n");
+    let old = std::fs::read_to_string(out).unwrap_or_default();
+    if old != s {
+        std::fs::write(out, s)?;
+        println!("changed");
+    } else {
+        println!("unchanged");
+    }
+    Ok(())
+}
+
 fn cmd_apply(path: &str) -> Result<()> {
     let wasm = wat::parse_str(&std::fs::read_to_string(path)?)?;
     println!("in:  {}", summary_line(&wasm)?);
@@ -1190,8 +1318,9 @@ fn main() -> Result<()> {
         Some("c07") => cmd_c07(args[2].parse()?, args[3].parse()?, &args[4], &args[5]),
         Some("f8") => cmd_f8(),
         Some("apply") => cmd_apply(&args[2]),
+        Some("abi") => cmd_abi(args.get(2).ok_or_else(|| anyhow!("out path"))?, &args[3..]),
         _ => {
-            eprintln!("usage: sfw glue <out.lean> | c04 <seed> <n> <ops> <impl> | c07 <seed> <n> <ops> <impl> | f8");
+            eprintln!("usage: sfw glue <out.lean> | abi <out.lean> [names..] | c04 <seed> <n> <ops> <impl> | c07 <seed> <n> <ops> <impl> | f8");
             std::process::exit(2);
         }
     }
